@@ -8,6 +8,7 @@ CONSTANTS
   Indents = {1, 2, 4}
   Breaks = {"LF", "CRLF", "CR"}
   DocFlags = {"ds", "de", "zi", "cmp", "fsp"}
+  Sim = FALSE
 SPECIFICATION Spec
 INVARIANT Emit
 CHECK_DEADLOCK FALSE
